@@ -247,6 +247,13 @@ def judge(run: Run, traces, label):
 
 def run(tier: str, seed: int) -> int:
     run_ = Run("C05", tier, seed)
+    # implementation-shaped prune / iterative_prune (any dictionary iteration order) end in the fixed points
+    consts = "NL = 2 MaxPer = 3 MaxArity = 2" if tier == "quick" else "NL = 3 MaxPer = 2 MaxArity = 2"
+    tlc.write_module(run_.wd, "MC_PruneAlg", tlc.read_spec("MC_PruneAlg.tla"), tlc.read_spec("MC_PruneAlg.cfg").replace("NL = 2 MaxPer = 2 MaxArity = 2", consts))
+    rp = tlc.require_ok(tlc.run_tlc(run_.wd, "MC_PruneAlg", workers=16, timeout=3000, heap="12g"), "MC_PruneAlg")
+    run_.add_tlc(rp, "MC_PruneAlg (small-step prune / iterative_prune, every order) " + consts)
+    if rp.status == "violated":
+        run_.tlc_violation(rp, "MC_PruneAlg")
     # (A) dictionaries
     dicts = export(run_, "MC_Prune", "NL = 2 MaxPer = 2 MaxArity = 2", "NL = 2 MaxPer = 3 MaxArity = 2", "all dictionaries, 2 labels, <=3 rules per label")
     if tier == "quick":
